@@ -40,10 +40,11 @@ def _case(draw, unit):
     else:
         b, q = draw(scatu.family_strategy(order))
     colour = unit['colour'] if 'colour' in unit else draw(st.sampled_from([False, False, True]))
+    capS = 136 if draw(st.integers(0, 24)) == 0 else 40       # occasionally far beyond the usual sizes
     if order == 1:
-        size = [draw(dtu.size_strategy(40)), draw(dtu.size_strategy(40))]
+        size = [draw(dtu.size_strategy(capS)), draw(dtu.size_strategy(capS))]
     else:
-        sz = st.one_of(st.integers(1, 5).map(lambda k: 8 * k), st.integers(2, 40))
+        sz = st.one_of(st.integers(1, capS // 8).map(lambda k: 8 * k), st.integers(2, capS))
         size = [draw(sz), draw(sz)]
     return {'order': order, 'biort': b, 'qshift': q, 'colour': colour, 'bias': draw(scatu.bias_strategy()),
             'N': draw(st.sampled_from([1, 2, 3])), 'C': 3 if colour else draw(st.sampled_from([1, 2, 3])),
